@@ -701,14 +701,24 @@ package scipipe
 //@   loop 0 invariant vis: forall k string :: $visited[k] ==> k in kv
 //@   loop 0 invariant nodup: forall i int, j int :: 0 <= i && i < j && j < len(keys) ==> keys[i] != keys[j]
 
+// splitAllPaths: walks up the path one level per round; each round keeps the last segment of the current level, in front
+// of the segments kept so far. So every segment of the path enters the hash input, in order (the top-most level, where
+// Dir and Base agree, ends the walk). baseOf / dirOf are filepath.Base / filepath.Dir as uninterpreted functions.
 //@ func splitAllPaths(path) (res)
 //@   props C14
 //@   deterministic structural
+//@   loop 0 invariant starts-at-the-path-itself[C14]: len(parts) == 0 ==> dir == dirOf(path) && file == baseOf(path)
+//@   loop 0 step moves-up-exactly-one-level[C14]: dir == dirOf(prev(dir)) && file == baseOf(prev(dir))
+//@   loop 0 step keeps-the-segment-in-front[C14]: len(parts) == len(prev(parts)) + 1 && parts[0] == prev(file) && (forall j int :: 1 <= j && j < len(parts) ==> parts[j] == prev(parts)[j - 1])
 
 //@ func (*Task).InIP(t, portName) (res)
 //@   props C09 C14 C15
 //@   deterministic structural
 //@   ensures returns-only-if-present: res != nil && res == t.InIPs[portName]
+//@ func (*Task).InPath(t, portName) (res)
+//@   props C09 C15
+//@   deterministic structural
+//@   ensures returns-only-if-present: t.InIPs[portName] != nil && res == t.InIPs[portName].path
 //@ func (*Task).Param(t, portName) (res)
 //@   props C09 C14 C15
 //@   deterministic structural
@@ -853,6 +863,25 @@ package scipipe
 //@   loop 1 invariant parsed: forall j int :: 0 <= j && j < len(placeHolderInfos) ==> placeHolderInfos[j] != nil && placeHolderInfos[j].match == placeHolderMatches[j][0] && placeHolderInfos[j].portName == splitOf(placeHolderMatches[j][2], "|")[0] && (forall k int :: 0 <= k && k < len(placeHolderInfos[j].modifiers) ==> placeHolderInfos[j].modifiers[k] == splitOf(placeHolderMatches[j][2], "|")[k + 1])
 //@   loop 2 invariant range[C15,C18]: 0 <= $i && $i <= len(subStreamIPs[portName]) && len(paths) == $i
 //@   loop 2 invariant joined[C15,C18]: forall j int :: 0 <= j && j < $i ==> paths[j] == prependOf(applyMods(subStreamIPs[portName][j].path, placeHolder.modifiers))
+
+// process.go SetOut (C15): the path function built from an output-path pattern. Same shape as formatCommand: one
+// substitution site per placeholder found, and at that site the replacement is the documented value for the type.
+// The out-port case calls another out-port's path function, a function value stored in a map: its result is the
+// uninterpreted pathFuncResult (user code may be behind it; assumed free of side effects like in NewTask).
+//@ ghost func pathFuncResult(f ref, t ref) string
+//@ extern fieldcall:Process.PathFuncs(task) (res)
+//@   ensures def: res == pathFuncResult($fn, task)
+//@ func (*Process).SetOut$1(t) (res)
+//@   props C15
+//@   atcall strings.Replace every-occurrence-replaced[C15]: $arg3 < 0 && $arg1 == match[0] && $arg2 == replacement
+//@   atcall strings.Replace parsed-as-name-bar-modifiers[C15]: phType == match[1] && portName == splitOf(match[2], "|")[0] && len(restParts) == len(splitOf(match[2], "|")) - 1 && (forall k int :: 0 <= k && k < len(restParts) ==> restParts[k] == splitOf(match[2], "|")[k + 1])
+//@   atcall strings.Replace known-type[C15]: phType == "i" || phType == "o" || phType == "p" || phType == "t"
+//@   atcall strings.Replace case-i[C15]: phType == "i" ==> t.InIPs[portName] != nil && replacement == ite(len(restParts) > 0, applyMods(t.InIPs[portName].path, restParts), t.InIPs[portName].path)
+//@   atcall strings.Replace case-p[C15]: phType == "p" ==> portName in t.Params && replacement == ite(len(restParts) > 0, applyMods(t.Params[portName], restParts), t.Params[portName])
+//@   atcall strings.Replace case-t[C15]: phType == "t" ==> portName in t.Tags && replacement == ite(len(restParts) > 0, applyMods(t.Tags[portName], restParts), t.Tags[portName])
+//@   atcall strings.Replace case-o[C15]: phType == "o" ==> portName in t.Process.PathFuncs && replacement == ite(len(restParts) > 0, applyMods(pathFuncResult(t.Process.PathFuncs[portName], t), restParts), pathFuncResult(t.Process.PathFuncs[portName], t))
+//@   loop 0 invariant range: 0 <= $i && $i <= len(matches)
+//@   loop 0 invariant placeholders-of-the-pattern: matches == reFindAll("{(o|os|i|is|p|t):([^{}]+)}", pathPattern) && t == old(t)
 
 // process.go initPortsFromCmdPattern (C18): the join separator of a placeholder part "join:SEP" is SEP, all of it.
 // (The parts are the |-separated pieces of a placeholder body, which contains neither braces nor bars: that is the
